@@ -280,6 +280,10 @@ func pbOne(c pbCase) {
 			alts = append(alts, alt{sv.n, k.fill(sv.v)})
 		}
 	}
+	for _, cb := range craftedBlindSigs(k, z, ss[0].sig, ePrime, dPrime) {
+		alts = append(alts, alt{cb.class, cb.data})
+		lib.Count("pb:finalize-crafted-with-private-key")
+	}
 	alts = append(alts, alt{"other-session", ss[1].blindSig}, alt{"short-drop-first", z[1:]}, alt{"short-drop-last", z[:len(z)-1]},
 		alt{"long-prepend-zero", append([]byte{0}, z...)}, alt{"long-append-zero", append(lib.Clone(z), 0)}, alt{"empty", []byte{}})
 	for _, a := range alts {
